@@ -6,6 +6,7 @@ Case = {'mode': ..., 'ops': [...]}, ops (instances are indexes into INST):
                            `eventmgr._cache` does); ok=False: a manifest `configure` fails on.
                            Queues the inotify event `created <inst>`.
   ['fs_delete', i]         cache/<inst> unlinked; queues `deleted <inst>`
+  ['overflow']             the inotify queue overflows: the younger half of the queued events is lost, an IN_Q_OVERFLOW marker follows
   ['cfg_break', i]         the node changes: from now on `configure` raises ContainerSetupError for cache/<inst> (file untouched)
   ['ready', 0|1]           cache/.ready removed / (re)written; queues deleted / created|modified
   ['deliver', n]           the manager's DirWatcher hands the next n queued events (FIFO, as inotify
@@ -248,6 +249,8 @@ def _gen_wild(rng, edge):
                         rng.choice(IGNORED_NAMES + [rng.randrange(n)])])
         if r2.random() < 0.03:
             ops.append(['cfg_break', r2.randrange(n)])
+        if r2.random() < 0.03 and ops and ops[-1][0] in ('fs_create', 'fs_delete'):
+            ops.append(['overflow'])
         if eager and ops and ops[-1][0] in ('fs_create', 'fs_delete', 'ready') and rng.random() < 0.8:
             ops.append(['deliver', 99])
     ops.append(['deliver', 99])
@@ -529,36 +532,48 @@ class _World:
 
         from treadmill.dirwatch import linux_dirwatch
 
-        class _InoEvent(object):
-            """One inotify event as `treadmill.syscall.inotify` reports it."""
-            def __init__(self, kind, path):
-                self.src_path = path
-                self.wd = 1
-                self.mask = 0
-                # eventmgr renames a temp file over the entry: IN_MOVED_TO; unlink: IN_DELETE
-                self.is_moved_to = kind == 'created'
-                self.is_create = False
-                self.is_modify = kind == 'modified'
-                self.is_attrib = False
-                self.is_delete = kind == 'deleted'
-                self.is_moved_from = False
-                self.is_delete_self = False
+        from treadmill.syscall import inotify as tm_inotify
+        import struct
 
-        class _FakeInotify(object):
-            @staticmethod
-            def add_watch(_path, event_mask=0):
+        def _record(kind, name):
+            """One `struct inotify_event` as the kernel queues it for the watched cache directory: eventmgr
+            renames a temp file over the entry (IN_MOVED_TO), rewrites .ready in place (IN_MODIFY), unlinks
+            (IN_DELETE); the queue overflow marker has wd -1 and no name."""
+            if kind == 'overflow':
+                return struct.pack('iIII', -1, tm_inotify.IN_Q_OVERFLOW, 0, 0)
+            mask = {'created': tm_inotify.IN_MOVED_TO, 'modified': tm_inotify.IN_MODIFY,
+                    'deleted': tm_inotify.IN_DELETE}[kind]
+            raw = name.encode() + b'\x00'
+            raw += b'\x00' * (-len(raw) % 16)
+            return struct.pack('iIII', 1, mask, 0, len(raw)) + raw
+
+        class _FakeInotify(tm_inotify.Inotify):
+            """The real `Inotify.read_events` (buffer parsing, watch-descriptor lookup) over a pipe the harness
+            fills with the records the kernel would have queued."""
+
+            def __init__(self):           # pylint: disable=super-init-not-called
+                rd, wr = os.pipe()
+                self._inotify_fd = rd
+                self._paths = {1: world.env.cache_dir}
+                world.ino_fds = (rd, wr)
+                world.all_ino_fds = getattr(world, 'all_ino_fds', ()) + (rd, wr)
+
+            def add_watch(self, _path, event_mask=0):     # pylint: disable=arguments-differ
                 return 1
 
-            @staticmethod
-            def remove_watch(_wd):
+            def remove_watch(self, _wd):
                 return None
 
-            @staticmethod
-            def read_events():
-                evs = [_InoEvent(k, os.path.join(world.env.cache_dir, n)) for k, n in world.queue]
-                world.expected.extend(world.queue)
+            def read_events(self, event_buffer_size=tm_inotify.DEFAULT_EVENT_BUFFER_SIZE):
+                buf = b''.join(_record(k, n) for k, n in world.queue)
+                if any(e[0] == 'overflow' for e in world.queue):
+                    world.overflow_read = True
+                world.expected.extend(e for e in world.queue if e[0] != 'overflow')
                 world.queue = []
-                return evs
+                if not buf:
+                    return []
+                os.write(world.ino_fds[1], buf)
+                return tm_inotify.Inotify.read_events(self, max(event_buffer_size, len(buf)))
 
         class _QueueWatcher(linux_dirwatch.LinuxDirWatcher):
             """The real LinuxDirWatcher (its `_read_events` translation of inotify events and the base class'
@@ -595,7 +610,23 @@ class _World:
         """What `AppCfgMgr.run` does while events are pending: rounds of `process_events(max_events=5)`."""
         left = n
         while left > 0 and (self.queue or self.watcher.event_list):
-            res = self.watcher.process_events(max_events=min(5, left))
+            self.overflow_read = False
+            try:
+                res = self.watcher.process_events(max_events=min(5, left))
+            except KeyError:
+                if not self.overflow_read:
+                    raise
+                # the overflow marker (wd -1) is no watch of ours: the manager dies on it, the supervisor
+                # restarts it and the new one synchronises from scratch - the lost events no longer matter
+                self.stats['overflow-died'] = self.stats.get('overflow-died', 0) + 1
+                self.expected = []
+                self.restart()
+                return
+            if self.overflow_read:
+                self.run.hits.append(fw.Hit(
+                    clause='queue-overflow-swallowed', call_site='Inotify.read_events',
+                    detail='the inotify queue overflowed (events of the cache directory were lost) and the '
+                           'manager carried on: nothing will make it look at the cache again'))
             done = sum(1 for r in res if r[0] != self.more_pending)
             if any(r[0] == self.more_pending for r in res):
                 self.stats['more-pending'] = self.stats.get('more-pending', 0) + 1
@@ -797,6 +828,13 @@ class _World:
             ln = 'C:%s' % self.cid(lname)
         self.emit('cleanup %s' % ln, post, [])
 
+    def overflow(self):
+        """The manager fell behind and the kernel's event queue overflowed: what was queued after the point
+        of overflow is lost; the kernel leaves one IN_Q_OVERFLOW marker."""
+        keep = len(self.queue) // 2
+        self.queue = self.queue[:keep] + [('overflow', '')]
+        self.stats['overflow'] = self.stats.get('overflow', 0) + 1
+
     def restart(self):
         self.queue = []
         self.new_manager()
@@ -853,6 +891,8 @@ def run_impl(case, pid):
                     w.fs_delete(int(op[1]) % len(INST))
                 elif k == 'cfg_break':
                     w.cfg_break(int(op[1]) % len(INST))
+                elif k == 'overflow':
+                    w.overflow()
                 elif k == 'ready':
                     w.ready(bool(op[1]))
                 elif k == 'deliver':
@@ -886,6 +926,10 @@ def run_impl(case, pid):
         run.tags.add('mode=%s' % case.get('mode', '?'))
         if s.get('more-pending'):
             run.tags.add('batch-limit-reached')
+        if s.get('overflow-died'):
+            run.tags.add('queue-overflow:manager-died-and-resynced')
+        if w.broken or s.get('cfg-break'):
+            run.tags.add('configure-broken-for-unchanged-file')
         run.tags.add('syncs=%d' % min(s['sync'], 4))
         if s['sync2']:
             run.tags.add('sync-with->=2-containers')
@@ -905,3 +949,9 @@ def run_impl(case, pid):
         return run
     finally:
         shutil.rmtree(root, ignore_errors=True)
+        for w_ in ([w] if 'w' in dir() else []):
+            for fd in getattr(w_, 'all_ino_fds', ()):
+                try:
+                    os.close(fd)
+                except OSError:
+                    pass
